@@ -538,6 +538,31 @@ def dumpData (s : Sys) (style unitsName : String) (u : Units) (f : Fmt) (fname :
     Res (List Char × List Char) :=
   (writeData s style u f).map fun content => (content, infoContent s.pbc style unitsName fname)
 
+/-- what a potential object hands to the data-file writer: its unit style, its atom style and the number of
+    atom types it defines for the system's symbols. -/
+structure PotArgs where
+  units : String
+  atomStyle : String
+  natypes : Nat
+deriving Repr
+
+/-- head of `atom_data.dump`: an argument the caller gives is used as given; one left out is taken from the
+    potential when there is one, else it is the default (`metal`, `atomic`, the system's number of types).
+    Result: (units, atom_style, natypes). -/
+def resolveArgs (unitsArg styleArg : Option String) (natypesArg : Option Nat) (pot : Option PotArgs)
+    (sysNatypes : Nat) : String × String × Nat :=
+  match pot with
+  | some p => (unitsArg.getD p.units, styleArg.getD p.atomStyle, natypesArg.getD p.natypes)
+  | none => (unitsArg.getD "metal", styleArg.getD "atomic", natypesArg.getD sysNatypes)
+
+/-- `System.dump('atom_data', atom_style=, units=, natypes=, potential=, ...)`: the arguments are resolved, the
+    conversion factors of the resolved unit style are looked up (`unitsOf` = `style.unit` evaluated in the
+    working units) and content and snippet are produced from the resolved names. -/
+def dumpDataWith (s : Sys) (unitsArg styleArg : Option String) (natypesArg : Option Nat) (pot : Option PotArgs)
+    (unitsOf : String → Units) (f : Fmt) (fname : Option String) : Res (List Char × List Char) :=
+  let r := resolveArgs unitsArg styleArg natypesArg pot s.natypes
+  dumpData { s with natypes := r.2.2 } r.2.1 r.1 (unitsOf r.1) f fname
+
 /-! ### LAMMPS dump file (atomman/dump/atom_dump/dump.py) -/
 
 def min4 (a b c d : Rat) : Rat :=
@@ -634,7 +659,8 @@ def maxType (l : List Int) : Int := l.foldl (fun a b => if a < b then b else a) 
 
 def countType (atype : List Int) (t : Int) : Nat := (atype.filter (· = t)).length
 
-/-- the exact numbers a POSCAR file carries (before printing): lattice rows, per-type counts and
+/-- the exact numbers a POSCAR file carries (before printing): lattice rows, per-type counts (one for each of
+    the system's `natypes` types, zero for a type no atom has — as many as the symbols line has names) and
     coordinate rows grouped by type. -/
 structure PoscarNums where
   scale : Rat
@@ -652,7 +678,7 @@ def poscarNums (s : Sys) (cartesian : Bool) (scale : Rat) : PoscarNums :=
   let coords0 := if cartesian then s.pos.map (v3div · scale) else s.pos.map s.box.cartToRel
   { scale := scale,
     lattice := ⟨v3div s.box.vects.r0 scale, v3div s.box.vects.r1 scale, v3div s.box.vects.r2 scale⟩,
-    counts := (List.range (maxType s.atype).toNat).map fun (i : Nat) => countType s.atype ((i : Int) + 1),
+    counts := (List.range s.natypes).map fun (i : Nat) => countType s.atype ((i : Int) + 1),
     coords := groupByType s.atype coords0 s.natypes }
 
 /-- `poscar.dump(system, header, symbols, coordstyle, box_scale, float_format)`; `coordstyle` is a
